@@ -233,3 +233,34 @@ CLAIMS['C20'] = dict(category='proof', ref='8 C20', text=_CLIENT_TEXT % (
     "(C20_dispatch_partial, _qos2_partial, C20_dispatch_nonoverlapping with a static non-overlap check; E9 counterexample C20_dispatch_counterexample); after "
     "the UNSUBACK a callback held only under listed filters is never invoked again (C20_unsubscribe_stops).") +
     " PARTIAL: 'without leaving goroutines behind' and real sockets/timeouts are runtime facts outside the model (the harness observes Connect results only).")
+
+CLAIMS['C05'] = dict(category='proof', ref='5 Core A/E/F, 8 C05',
+    text="Lean 4 theorems (15) over EVERY byte stream (List UInt8, no length bound), every ring size, every broker state and every connection id, about "
+         "code-shaped models tied to the Go code by differential runs and regenerated facts. (i) C05_decode_total: Type.New()+Decode, as peekMessage and "
+         "getConnectMessage call it, never panics (corollary of C04). (ii) C05_framing_total_pre / _post / C05_framing_outcomes, on Model/Framing "
+         "(getMessageBuffer + getConnectMessage before CONNECT; peekMessageSize + peekMessage after it; a panic is an explicit outcome, proved unreachable): "
+         "framing ends in packet | needMore | closeThis, consumes only a prefix of that connection's stream (the decoder sees exactly stream.take n), and "
+         "every allocation is bounded - before CONNECT by 1+4+268435455 bytes (what four length bytes can announce: the limits l>4 / cnt from 2 to 5 are "
+         "regenerated from the source and tied by decide, C05_facts), after it by the ring size. (iii) isolation on the broker model: an event of connection A "
+         "(accepted or refused first packet, any packet, its end) leaves every other connection's table entry and liveness (C05_other_connections_untouched) "
+         "and every session object not served to / resumed by A (C05_other_sessions_untouched, under the proved invariant) exactly as they were; it emits only "
+         "packets to A, the close of A and fan-out items - never `closed B`, never anything but a PUBLISH with RETAIN=0 to another connection (C05_outputs); "
+         "events carrying no application message emit to A alone (C05_quiet_events_reach_nobody); a QoS 0/1 PUBLISH / PUBREL / abnormal end emit exactly the "
+         "onPublish fan-out of the message / released messages / will that C01, C08, C09 characterise (C05_publish_is_fanout, C05_end_is_will_fanout); no "
+         "QoS 1/2 PUBLISH without packet identifier is passed on (C05_forwarded_publish_has_id; finding E11, repaired). (iv) lifting: any sequence of events of "
+         "A, its end included, never closes B and never changes B's entry (C05_events_never_close_others); a byte stream on A is, through the framing model, "
+         "packets of A followed by at most one end of A, last, and the first packet is one `first` event (C05_stream_is_events_of_A, with the model's packet "
+         "bound shown irrelevant); combined for every first stream, later stream, cut and teardown: C05_bytes_hurt_nobody_else. Non-vacuity examples by decide. "
+         "Tie: the real broker over net.Pipe with new events rawfirst/raw/race (arbitrary bytes as first thing / on an accepted connection / racing another "
+         "connection's publishes); attacker streams from valid packets of all 14 types by truncation at every offset, corrupted and non-minimal length "
+         "fields, 5-byte varints, reserved types, lengths above the ring and up to 268 MB announced but never sent, random bytes, packets split across events; a "
+         "witness subscriber/publisher pair whose traffic the reference broker checks exactly on every line (PINGREQ barriers prove the witnesses alive); a "
+         "dying broker process is a crashed stream = violation with replay; the implementation runs under GOMEMLIMIT and an address-space cap. "
+         "PARTIAL: a real panic, out-of-memory or goroutine death is a runtime event - the models represent them only as explicit outcomes of the steps they "
+         "contain (decoders, framing functions) and cannot exhibit one in code they do not model (logging, TLS, the websocket bridge, the Go runtime); "
+         "the broker model takes one event as one atomic step, so 'all timings of the teardown relative to publishes' is covered by event order in the theorems "
+         "and by the race event (unserialised writes) plus the C16/C18 checks on the real code, not by a theorem about interleavings; the byte-to-event "
+         "translation is shared by the model and the reference stream (what the decoders accept is C03/C04); a packet of more than ring size - 8 KiB sent in "
+         "pieces can wedge its own connection (F3, C16) and is kept out of the generators.",
+    technique='machine-checked proof in Lean 4 (framing totality and bounds over all byte streams; isolation and lifting on the sequential broker model) + differential correspondence of byte streams on the real broker (real code vs code-shaped model vs reference broker)',
+    note='Trusted: Lean kernel; axioms propext/Classical.choice/Quot.sound only; Go harness (raw clients over net.Pipe, PINGREQ barriers, frame scanner used only to know when to wait) + line protocol + fact extractor; Go runtime semantics assumed by the models (slices, append, binary.Uvarint, net.Conn reads, recover); see evidence.assumptions')
